@@ -71,6 +71,10 @@ def tdm_script(rng, with_params=False, with_loop=False):
     if rng.random() < 0.4:
         lines.append("int array B =\n    1, 2\n    3, 4")
         others.append("B")
+    if rng.random() < 0.25:
+        # str scalars (the empty string among them), passed by value next to the p-arrays
+        lines.append('str lab = %s' % rng.choice(['""', '""', '" "', '"p"', '"run 7"']))
+        others.append("lab")
     if with_params and names and rng.random() < 0.4:
         # an ordinary array given by ONE template parameter that is called like a p-array declared above ({p1}): the parameter and
         # the p-array are different things, the p-array is still delivered by name afterwards
@@ -88,7 +92,7 @@ def tdm_script(rng, with_params=False, with_loop=False):
             elif others and r < 0.7:
                 args.append(rng.choice(others))
             elif r < 0.75:
-                args.append(rng.choice(['"p0_shift"', '"p1x"', '"p"', '"p0 "', '"xp0"', '"P0"']))      # strings that only look like p-names stay strings
+                args.append(rng.choice(['"p0_shift"', '"p1x"', '"p"', '"p0 "', '"xp0"', '"P0"', '""', '" "', '"p 0"', '"0"', '"p-1"', '"p+1"', '"p1.0"']))      # strings that only look like p-names stay strings
             elif with_params and r < 0.85:
                 args.append("{%s}" % rng.choice(["a", "phi", "p", "p0x"]))
             else:
@@ -96,6 +100,8 @@ def tdm_script(rng, with_params=False, with_loop=False):
         kws = []
         if rng.random() < 0.4:
             kws.append("%s=%s" % (rng.choice(["phi", "r", "select"]), rng.choice(["%s", "%s", "(%s)", "+%s"]) % rng.choice(names) if names and rng.random() < 0.6 else elem(rng, "float")))
+        if rng.random() < 0.15:
+            kws.append("tags=[%s]" % ", ".join(rng.choice(['""', '"p"', '"a b"', "1", "True"] + names) for _ in range(rng.randint(1, 3))))
         body = ", ".join(args + kws)
         op = rng.choice(["Sgate", "BSgate", "Rgate", "MeasureHomodyne", "Dgate"])
         modes = rng.choice(["1", "[0, 1]", "0", "(1)"])
